@@ -7,6 +7,16 @@ _PENDING = ["C01", "C02", "C03", "C04", "C05", "C06", "C07", "C08", "C09", "C10"
 RELAY_NOTE = "Trusted: Coq kernel; the Go harness (event abstraction: the harness records the credential descriptor, attribute presence/size and relay port it used), pion/stun encoding and MESSAGE-INTEGRITY, Go timers under testing/synctest. One listener/one allocation manager is modelled; TCP relay connections are C16's model."
 
 CHECKS = [
+    {"property_id": "C12",
+     "text": "Coq theorems on Model/ClientTx.v: the exact retransmission schedule (7 transmissions at t0 + rto, doubled, capped at 1.6 s; error "
+             "after the seventh interval) for every rto > 0, never an eighth transmission and at most one result whatever the socket does, "
+             "termination within rto + 7 x 1.6 s for every write pattern, matching by id with duplicates/late/foreign responses ignored, table "
+             "clean after completion, Close and failed first write. The model is run against the real Client (PerformTransaction / "
+             "HandleInbound / Close) on a scripted socket under virtual time: response after each transmission on either side of each "
+             "timer, write error at each transmission, Close at each point, concurrent transactions with interleaved responses.",
+     "note": "Trusted: Coq kernel, Go harness, testing/synctest timers. Timer-callback vs response serialisation by Client.mutexTrMap is "
+             "modelled as atomic events (lock discipline is C18). Transaction ids assumed fresh.",
+     "technique": "Coq proof (induction on the retransmission counter, closed-form schedule) + differential correspondence against client.go / internal/client/transaction.go"},
     {"property_id": "C17",
      "text": "Coq theorems for all secrets, users, realms, durations (zero/negative included) and validation instants: both handlers accept a "
              "generated username iff unix(now') <= expiry second and return the long-term key of (username, realm, generated password); decimal "
